@@ -77,7 +77,7 @@ Section AStar.
   Variable start goal : nat.
   Variable early : bool.
 
-  (* pathfinding.py:37-48, the loop over the neighbours of [cur]
+  (* pathfinding.py:41-52, the loop over the neighbours of [cur]
      (estimated_total_cost is write-only in the source and is not modelled) *)
   Fixpoint as_relax (cur : nat) (nbrs : list (nat * nat)) (st : as_state) : as_step :=
     match nbrs with
@@ -104,23 +104,25 @@ Section AStar.
         end
     end.
 
-  (* pathfinding.py:29-52; [fuel] = maxits *)
+  (* pathfinding.py:29-55 (after fix 475bcae); [fuel] = maxits bounds the number of EXPANDED nodes:
+       for i in range(maxits + 1): pop; if current == goal: return; if i == maxits: break; expand
+     so popping the goal is free and the (maxits+1)-th pop of a non-goal node raises. *)
   Fixpoint as_loop (fuel : nat) (st : as_state) : as_result :=
-    match fuel with
-    | O => AS_NotFound (as_margin st)                                       (* range exhausted -> :50 *)
-    | S f =>
-      match as_pq_get (as_frontier st) with
-      | None => AS_NotFound (as_margin st)                                  (* :30-31 break -> :50 *)
-      | Some ((p, cur), rest) =>
-        let mg := as_pop_margin (as_margin st) p rest in
-        if (cur =? goal)%nat then AS_Found (as_came st) (as_cost st) mg     (* :34-35 *)
-        else
+    match as_pq_get (as_frontier st) with
+    | None => AS_NotFound (as_margin st)                                    (* :32-33 break -> raise *)
+    | Some ((p, cur), rest) =>
+      let mg := as_pop_margin (as_margin st) p rest in
+      if (cur =? goal)%nat then AS_Found (as_came st) (as_cost st) mg       (* :36-37 *)
+      else
+        match fuel with
+        | O => AS_NotFound mg                                               (* :38-39 i == maxits: break -> raise *)
+        | S f =>
           match as_relax cur (adj cur) (mkAS rest (as_came st) (as_cost st) mg) with
           | AS_Return st' => AS_Found (as_came st') (as_cost st') (as_margin st')
           | AS_KeyError => AS_Err
           | AS_Continue st' => as_loop f st'
           end
-      end
+        end
     end.
 
   (* pathfinding.py:15-27 *)
